@@ -28,6 +28,45 @@ Proof.
   rewrite !Z.mod_small in H by lia. exact H.
 Qed.
 
+(* ------------------------------------------------------------------ round 7: the node prefix keeps the views of the nodes apart *)
+Lemma le_bytes_length n : forall k, String.length (le_bytes n k) = n.
+Proof. induction n as [|n IH]; intros k; cbn [le_bytes String.length]; [reflexivity|]. now rewrite IH. Qed.
+
+Lemma str_length_app (p s : string) : String.length (p ++ s) = (String.length p + String.length s)%nat.
+Proof. induction p as [|a p IH]; cbn [String.append String.length]; [reflexivity|]. now rewrite IH. Qed.
+
+Lemma str_app_inj : forall (p q s t : string),
+  String.length s = String.length t -> (p ++ s = q ++ t)%string -> p = q /\ s = t.
+Proof.
+  induction p as [|a p IH]; intros [|b q] s t Hl H; cbn [String.append] in H.
+  - now split.
+  - exfalso. subst s. cbn [String.length] in Hl. rewrite str_length_app in Hl. lia.
+  - exfalso. subst t. cbn [String.length] in Hl. rewrite str_length_app in Hl. lia.
+  - injection H as Hab H. destruct (IH q s t Hl H) as [Hp Hs]. subst. now split.
+Qed.
+
+Lemma node_key_injective p q a b :
+  0 <= a < 2 ^ 64 -> 0 <= b < 2 ^ 64 -> node_key p a = node_key q b -> p = q /\ a = b.
+Proof.
+  intros Ha Hb H. unfold node_key in H.
+  destruct (str_app_inj p q (ser_le8 a) (ser_le8 b)) as [Hp Hs]; [|exact H|].
+  - unfold ser_le8. now rewrite !le_bytes_length.
+  - split; [exact Hp|now apply ser_le8_injective].
+Qed.
+
+Lemma view_key_code_injective n m a b :
+  0 <= a < 2 ^ 64 -> 0 <= b < 2 ^ 64 -> view_key_code n a = view_key_code m b -> n_node n = n_node m /\ a = b.
+Proof. unfold view_key_code. apply node_key_injective. Qed.
+
+(* two entries of database_data as in the tester's demonstration: different node names, the default database name *)
+Definition ex_ch1 : cnode := {| n_node := "ch1"; n_db := "qryn" |}.
+Definition ex_ch2 : cnode := {| n_node := "ch2"; n_db := "qryn" |}.
+Lemma view_key_by_db_collides :
+  n_node ex_ch1 <> n_node ex_ch2 /\
+  (forall k, view_key_by_db ex_ch1 k = view_key_by_db ex_ch2 k) /\
+  view_key_code ex_ch1 7 <> view_key_code ex_ch2 7.
+Proof. split; [discriminate|split; [reflexivity|vm_compute; discriminate]]. Qed.
+
 (* ------------------------------------------------------------------ byte-keyed cache = triple-keyed cache *)
 Section KEYED.
   Variable key : row -> Z.
